@@ -186,6 +186,15 @@ func (vc *VC) declMem(name, key string, leaf Sort, twoLevel bool) string {
 		vc.emit(fmt.Sprintf("(assert (forall ((o Int) (i Int)) (! (and (< 0 (select (select %s o) i))%s) :pattern ((select (select %s o) i)))))", name, hi, name))
 		return name
 	}
+	if key == "buffer.len" {
+		// a buffer never holds a negative number of bytes
+		if twoLevel {
+			vc.emit(fmt.Sprintf("(assert (forall ((o Int) (i Int)) (! (<= 0 (select (select %s o) i)) :pattern ((select (select %s o) i)))))", name, name))
+		} else {
+			vc.emit(fmt.Sprintf("(assert (forall ((i Int)) (! (<= 0 (select %s i)) :pattern ((select %s i)))))", name, name))
+		}
+		return name
+	}
 	T := vc.keyType[key]
 	if key == "uint8" {
 		T = types.Typ[types.Uint8]
